@@ -608,6 +608,21 @@ func Solve(q *Query, timeout time.Duration, wantModel bool, solvers []string) So
 			}
 		}
 	}
+	// most queries are decided by z3 5.x within a second: give it a short head start alone,
+	// then race all solvers (this keeps the machine's cores for other obligations)
+	if len(solvers) == 0 && timeout > 2*time.Second {
+		for _, sp := range specs {
+			if sp.name != "z3-new" {
+				continue
+			}
+			r := runOne(ctx, sp, file, 1500*time.Millisecond)
+			if r.Verdict == "unsat" || r.Verdict == "sat" {
+				r.Script = script
+				verdictMemo.Store(key, r)
+				return r
+			}
+		}
+	}
 	ch := make(chan SolverResult, len(specs))
 	for _, sp := range specs {
 		sp := sp
